@@ -536,6 +536,51 @@ VERUS_LIFTS["token_next_block"] = token_next_block_range
 
 
 
+# ---------------------------------------------------------------------------
+# Production meta-data (C05 / C09): the statements of GrammarBuilder::extract_productions_and_symbols from the loop that
+# inherits rule-level meta-data to the `nopse` mapping.
+
+META_DECLARED = ["new_production", "rule"]
+
+
+def meta_block_range(repo):
+    rel = "rustemo-compiler/src/grammar/builder.rs"
+    src = rsx.Source(os.path.join(repo, rel))
+    imp = src.find_impl(r"^impl GrammarBuilder", has="extract_productions_and_symbols")
+    fn = imp.child("fn", "extract_productions_and_symbols")
+    t = src.toks
+    body_s = t[fn.body_open].e
+    body = src.text[body_s:t[fn.body_close].s]
+    a_lit = "for (key, data) in &rule.meta {"
+    z_lit = "self.productions.push(new_production);"
+    if body.count(a_lit) != 1 or body.count(z_lit) != 1:
+        raise ExtractError("meta block: anchors `%s` / `%s` not found exactly once" % (a_lit, z_lit))
+    lo_off = body_s + body.index(a_lit)
+    hi_off = body_s + body.index(z_lit)
+    lo = next(i for i in range(fn.body_open, fn.body_close) if t[i].s == lo_off)
+    hi = next(i for i in range(fn.body_open, fn.body_close) if t[i].s == hi_off)
+    before = "".join(x.text for x in t[max(fn.body_open, lo - 30):lo] if x.kind not in ("ws", "comment"))
+    if not before.endswith("meta:production.meta,..Production::default()};"):
+        raise ExtractError("meta block: the construction of new_production in front of the range changed: %r" % before[-70:])
+    block_text = src.text[lo_off:t[src.prev_sig(hi)].e]
+    outside = bound_names_outside(src, fn, lo, hi)
+    used = set(idents(src, lo, hi))
+    inside = bound_names_inside(src, lo, hi)
+    free = sorted(((outside & used) - inside) | ({"self"} if "self" in used else set()))
+    if free != META_DECLARED:
+        raise ExtractError(f"meta block: free variables changed: now {free}, declared {META_DECLARED}")
+    sha = hashlib.sha256(block_text.encode()).hexdigest()[:16]
+    meta = {"lift": "meta_block", "file": rel, "lines": [src.line_of(lo_off), src.line_of(hi_off)], "sha256_16": sha, "free_variables": META_DECLARED,
+            "note": "`rule` is the loop variable of `for rule in rules` (a GrammarRule by value; the range reads rule.meta) and a `&GrammarRule` parameter here; "
+                    "`new_production` is the local `let mut new_production = Production { .., meta: production.meta, ..Production::default() }` (pinned) and a "
+                    "`&mut Production` parameter here; the generated function is a free function (the range does not mention self)"}
+    header = "fn meta_block(rule: &GrammarRule, new_production: &mut Production) {\n                "
+    return header + block_text + "\n}\n", meta
+
+
+VERUS_LIFTS["meta_block"] = meta_block_range
+
+
 def lift_conflict_block(repo, gen):
     block_text, then_body, meta = conflict_block_range(repo)
     rel, declared, sha = meta["file"], meta["free_variables"], meta["sha256_16"]
